@@ -1,6 +1,7 @@
 SPECIFICATION Spec
 CONSTANTS
   TcCode = FALSE
+  PathKinds = {"empty", "onehop", "scion1", "scion2", "scion3", "epic2"}
   Fills = {0, 90, 165, 255}
 INVARIANTS TypeOK Exact
 CHECK_DEADLOCK FALSE
